@@ -109,8 +109,10 @@ def rand_prog(rng, cap, maxops, abort=True, wait=True):
     n = rng.randrange(0, maxops + 1)
     for _ in range(n):
         r = rng.random()
-        if r < 0.55:
+        if r < 0.47:
             ops.append(["write", rng.choice(write_sizes(cap))])
+        elif r < 0.55:
+            ops.append(["writev", rng.choice(write_sizes(cap))])     # Write::write_vectored
         elif r < 0.8:
             ops.append(["flush", 0])
         elif r < 0.9 and wait:
@@ -207,8 +209,10 @@ def stream_cases(prop, tier, seed, sched_cases=()):
             prog = []
             for _i in range(nops):
                 r = rng.random()
-                if r < 0.6:
+                if r < 0.5:
                     prog.append(["write", rng.choice([0, 1, 2, 5, 17, 100, 300, 5000 if cap > 10 else 40])])
+                elif r < 0.6:
+                    prog.append(["writev", rng.choice([0, 1, 2, 5, 17, 100, 300, 5000 if cap > 10 else 40])])
                 elif r < 0.9:
                     prog.append(["flush", 0])
                 elif prop in ("C11", "C20", "C12"):
@@ -217,6 +221,22 @@ def stream_cases(prop, tier, seed, sched_cases=()):
             add(cap=cap, level=level, ae="gzip", abs=ae_abs([("gzip", 1000)]), prog=prog, payload=payload,
                 pseed=rng.randrange(1 << 30), rand_steps=rng.choice([0, 0, 300]), rseed=rng.randrange(1 << 30),
                 rand_cdrop=prop in ("C11",) and rng.random() < 0.5, extra=1)
+    if prop in ("C09", "C08", "C17"):
+        # writes larger than any internal buffer of the encoder (incompressible data: the compressed
+        # output of one write exceeds the encoder's own 32 KiB buffer, so writes are short), plain and vectored
+        for i in range((24 if prop == "C09" else 8) * k):
+            cap = rng.choice([4096, 65536, 100000])
+            total = rng.choice([40000, 70000, 150000, 400000])
+            gzip = prop != "C08"
+            prog = []
+            for _j in range(rng.randrange(1, 4)):
+                prog.append([rng.choice(["write", "writev", "writev"]), total])
+                if rng.random() < 0.5:
+                    prog.append(["flush", 0])
+            prog.append(["drop", 0])
+            add(cap=cap, level=rng.randrange(1, 10), ae="gzip" if gzip else None, abs=ae_abs([("gzip", 1000)]) if gzip else dict(ABSENT),
+                prog=prog, payload=rng.choice(["rand", "rand", "ramp"]) if gzip else "ramp",
+                pseed=rng.randrange(1 << 30), rand_steps=rng.choice([0, 200]), rseed=rng.randrange(1 << 30), extra=1)
     if prop in ("C17", "C15"):
         for hdr, a in AE_CHOICES:
             for level in range(0, 11):      # 10 is accepted by the encoder too
